@@ -149,4 +149,32 @@ def ma_buffer(payload):
                         for a, ag in enumerate(agents):
                             if int(np.asarray(act[ag][b]).reshape(-1)[0]) != ident * 10 + a or int(np.asarray(nobs[ag][b]).reshape(-1)[0]) != ident + 1:
                                 return {"status": "fail", "cases": cases, "detail": f"batch row {b}: fields of different experiences mixed ({ag})"}
+    # vectorised additions of dict / tuple observations: one stored experience per ENVIRONMENT, sub-spaces of one env kept together
+    for kind in ("dict", "tuple"):
+        for E in (1, 2, 3, 4):
+            buf = MultiAgentReplayBuffer(8, fields, agents)
+
+            def obs_of(a, base):
+                x = np.array([[100 * a + base + i, 1.0, 2.0] for i in range(E)], dtype=np.float32)
+                y = np.array([[100 * a + base + i + 0.5] for i in range(E)], dtype=np.float32)
+                return {"x": x, "y": y} if kind == "dict" else (x, y)
+            args = [{ag: obs_of(a, 0) for a, ag in enumerate(agents)}, {ag: np.zeros((E, 1)) for ag in agents}, {ag: np.arange(E, dtype=np.float32) for ag in agents},
+                    {ag: obs_of(a, 50) for a, ag in enumerate(agents)}, {ag: np.zeros(E, dtype=bool) for ag in agents}]
+            cases += 1
+            try:
+                buf.save_to_memory(*args, is_vectorised=True)
+            except IndexError as e:
+                return {"status": "fail", "cases": cases, "witness_key": "ma-vect-structured-obs",
+                        "detail": f"vectorised save of {kind} observations with {E} environment(s) raised IndexError: {e}", "input": {"kind": kind, "envs": E}}
+            if len(buf) != E:
+                return {"status": "fail", "cases": cases, "witness_key": "ma-vect-structured-obs",
+                        "detail": f"vectorised save of {kind} observations from {E} environments stored {len(buf)} experiences", "input": {"kind": kind, "envs": E}}
+            for i, e in enumerate(buf.memory):
+                for a, ag in enumerate(agents):
+                    o = e.obs[ag]
+                    x, y = (o["x"], o["y"]) if kind == "dict" else o
+                    if float(np.asarray(x).reshape(-1)[0]) != 100 * a + i or float(np.asarray(y).reshape(-1)[0]) != 100 * a + i + 0.5 \
+                            or float(np.asarray(e.reward[ag]).reshape(-1)[0]) != i:
+                        return {"status": "fail", "cases": cases, "witness_key": "ma-vect-structured-obs",
+                                "detail": f"{kind} observations, env {i}, {ag}: sub-spaces / fields of different environments mixed", "input": {"kind": kind, "envs": E}}
     return {"status": "pass", "cases": cases}
